@@ -10,7 +10,10 @@ drivers that #include the repository's src/*.cpp unmodified under ASan/UBSan.
 Sub-explorations (item[0], usable with --only):
   perm       permanent / permanent_laplace values through the pybind module
   perm_san   the same kernels in the sanitizer driver (forced job counts)
-  haf        hafnian / loop hafnian / batched variants (numba)
+  haf        hafnian / loop hafnian (numba)
+  hafb       batched (loop) hafnians: every base occupation vector (photons already in the batched
+             last mode included) x every cutoff <= 8, each entry vs the exact reference of the
+             un-batched reduction and vs the library's own un-batched function
   jaxhaf     piquasso/_math/jax/hafnian.py
   tor        torontonian / loop torontonian values + sanitizer driver
   pf         Pfaffian values + sanitizer driver
@@ -59,8 +62,9 @@ def _tier(ctx):
         "san_band": (17, 40) if q else None,
         "san_hw": (1, 3) if q else (1, 2, 3, 16),
         "haf_T": {1: 8, 2: 8, 3: 7, 4: 6} if q else {1: 12, 2: 10, 3: 10, 4: 10, 5: 8, 6: 6},
-        "haf_cutoffs": (1, 2, 3, 5, 8) if q else tuple(range(1, 9)),
-        "haf_batch_T": 4 if q else 6,
+        # batched variants: EVERY base occupation vector (last entry zero or not) up to the total, every cutoff
+        "hafb_T": {1: 6, 2: 6, 3: 5, 4: 5} if q else {1: 12, 2: 10, 3: 8, 4: 7, 5: 6, 6: 6},
+        "hafb_cutoffs": tuple(range(1, 9)),
         "jaxhaf_T": 3 if q else 6,
         "tor_n": 5 if q else 6,
         "pf_n": 8,
@@ -125,6 +129,11 @@ def _items(ctx):
     for m, T in sorted(t["haf_T"].items()):
         for name, _ in IN.haf_matrices(ctx.seed, m, ctx.tier):
             items.append(("haf", m, name, T))
+    for m, T in sorted(t["hafb_T"].items()):
+        nch = 1 if (t["q"] or m <= 3) else (2 if m == 4 else 4)
+        for name, _ in IN.haf_matrices(ctx.seed, m, ctx.tier):
+            for c in range(nch):
+                items.append(("hafb", m, name, T, c, nch))
     items.append(("jaxhaf", t["jaxhaf_T"]))
     # --- torontonian ---------------------------------------------------------------------
     for n in range(0, t["tor_n"] + 1):
@@ -155,6 +164,8 @@ def _cost(item):
         return 5e8
     if item[0] == "haf":
         return item[3]**item[1] * 300
+    if item[0] == "hafb":
+        return item[3]**item[1] * 8000 / item[5]
     if item[0] == "tor":
         return 4.0**item[1] * 5000
     return 1e5
@@ -187,8 +198,10 @@ def run(ctx, builddir):
         "bounded-exhaustive: every pair (rows, cols) of multiplicity vectors with equal totals up to the tier bound per shape "
         "(all pairs on 1x1..4x4 and small totals; for larger k x k and the high-multiplicity band every ROW vector x representative column "
         "vectors), crossed with a matrix alphabet of exactly representable entries (all 81 2x2 matrices over {0,1,i}, structured families, "
-        "seed-derived generic Gaussian rationals p/16+iq/16); every reduction vector up to a total for the (loop) hafnian and its batched "
-        "variants; structured + generic positive-definite inputs for the (loop) torontonian on n<=5(6) modes; every antisymmetric 4x4 matrix "
+        "seed-derived generic Gaussian rationals p/16+iq/16); every reduction vector up to a total for the (loop) hafnian; for the batched "
+        "variants every base occupation vector up to a total on 1..4 (thorough: 1..6) modes -- zero AND non-zero last (batched) entry -- x every "
+        "cutoff 1..8 x the symmetric-matrix alphabet (x the diagonal vectors for the loop variant), each returned entry k against the exact "
+        "reference of the un-batched reduction occ + k*e_last and against the library's own un-batched function; structured + generic positive-definite inputs for the (loop) torontonian on n<=5(6) modes; every antisymmetric 4x4 matrix "
         "over {-1,0,1}, every 6x6 over {0,1} above the diagonal, structured/generic n<=8 for the Pfaffian; dtype x layout x entry point on a "
         "fixed input set.  A case = one kernel call compared with the exact reference; distinct = distinct (kernel, shape, rows, cols / "
         "reduction / matrix) keys; non-trivial = total >= 1 (a reference value had to be computed)."
@@ -199,7 +212,9 @@ def run(ctx, builddir):
     ctx.assume("float32 overloads: 5e-4*(1+scale) (permanent: 5e-4*scale + the same Glynn allowance with u=2^-24), compared only for totals <= 10 where float32 does not overflow")
     ctx.assume("pool workers run with OMP_THREAD_LIMIT=1: the native permanent's job partition min(4*hardware_concurrency, idx_max) is unchanged, the jobs run on one thread (thread orders are C11's subject); hardware_concurrency()=%d on this machine, the sanitizer driver forces other values" % (os.cpu_count() or 0))
     ctx.assume("Laplace variant: semantics taken from the only caller (passive/sampling.py:_calculate_pmf): sum(cols)=sum(rows)+1, entry l = perm(A; rows, cols-e_l); entries with cols[l]=0 are undefined and not compared")
-    ctx.assume("batched hafnians: output[i] = (loop) hafnian with the LAST occupation number raised by i, compared for inputs whose last occupation number is 0 (the only use in the library)")
+    ctx.assume("batched hafnians: output[k] = (loop) hafnian with the LAST occupation number raised by k (base + k, k < cutoff), as tests/_math/test_hafnian.py states it "
+               "(occupation_numbers + k*mask); compared for EVERY base vector, whether its last entry is 0 (the only use inside the library: "
+               "gaussian/simulation_steps.py:_generate_sample) or not; the entry is also compared with the library's own un-batched function at twice the tolerance")
     ctx.assume("sanitizer drivers: -O1 -g -fsanitize=address,undefined -fno-sanitize-recover=undefined, ASAN_OPTIONS=detect_leaks=0 (leaks are outside the property's wording); the sweeps run a recover-mode build of the same drivers (one report per faulting source location per process) and every vector with a report or a wrong value is re-executed alone under the strict build before it is reported")
     if any(it[0] in ("haf", "variants") for it in items):
         # one process fills numba's on-disk cache for every (function, array layout) signature the
@@ -718,13 +733,39 @@ def _eval_haf(case):
         return _haf_call(entry, kernel, A, D, o, cutoff)
 
     refs, scales = _haf_reference(mat, diag, kernel, occ, cutoff)
-    msg = _haf_compare(refs, scales, call(entry, layout))
+    batch = kernel.endswith("batch")
+
+    def unbatched():
+        """What the library's own un-batched function returns for the reductions occ + k*e_last."""
+        A = np.array(K.matrix_to_complex(mat), dtype=np.complex128).reshape(len(mat[0]), len(mat[0]))
+        D = None if diag is None else np.array([complex(Fraction(e[0], diag[1]), Fraction(e[1], diag[1])) for e in diag[0]], dtype=np.complex128)
+        out = []
+        for k in range(cutoff):
+            o = np.array(occ[:-1] + (occ[-1] + k,), dtype=np.int64)
+            out += _haf_call("numba", kernel[: -len("_batch")], A, D, o, None)
+        return out
+
+    def compare(got):
+        """(message or None, sub): vs the exact reference, then (batched only) vs the library's un-batched values."""
+        msg = _haf_compare(refs, scales, got)
+        if msg is not None or not batch:
+            return msg, "value"
+        msg = _haf_compare(unbatched(), [2 * s + 1 for s in scales], got)
+        return (None if msg is None else "vs the library's un-batched function: " + msg), "batch_vs_unbatched"
+
+    msg, sub = compare(call(entry, layout))
     if msg is None:
         return None
+    if batch and sub == "value":
+        msg += "; the library's own un-batched function returns %r for the same reductions" % (unbatched(),)
     got_now = call(entry, layout)
     finite = all(math.isfinite(g.real) and math.isfinite(g.imag) for g in got_now)
-    sig = {"check": "C04", "sub": "value" if finite else "nonfinite", "kernel": kernel,
+    sig = {"check": "C04", "sub": sub if finite else "nonfinite", "kernel": kernel,
            "input_class": "generic" if case.get("family", "?") == "generic" else "structured"}
+    if batch and occ[-1] != 0:
+        # photons already present in the batched (last) mode: a class of its own (the library's
+        # callers and tests never pass it), whatever the matrix family / cutoff
+        sig["input_class"] = "last_occupation_nonzero"
     if entry in ("jax", "JaxConnector"):
         sig["kernel"] = "jax_loop_hafnian"
         if entry == "JaxConnector" and _haf_compare(refs, scales, call("jax", "C")) is None:
@@ -735,7 +776,7 @@ def _eval_haf(case):
                 sig["entry"] = entry
             if layout != "C":
                 sig["layout"] = layout
-    if kernel.endswith("batch"):
+    if batch and occ[-1] == 0:
         sig["cutoff_class"] = "cutoff<=2" if cutoff <= 2 else "cutoff>=3"
     return sig, "%s(%s, diag=%s, occ=%s, cutoff=%s) [%s, %s]: %s" % (kernel, case.get("matrix_name"), case.get("diag_name"), occ, cutoff, entry, layout, msg)
 
@@ -1189,23 +1230,133 @@ def _work_haf(ctx, item):
                 rl = _cfloat(fr.value(occ))
                 sl = K.matchings_abs_float(absA, absD, occ)
                 check("loop_hafnian", [complex(H.loop_hafnian_with_reduction(A, D, o))], [rl], [sl], occ, dname, dv, None)
-            # batched variants: last occupation number 0, every cutoff of the tier
-            if occ[-1] == 0 and T <= t["haf_batch_T"]:
-                for cutoff in t["haf_cutoffs"]:
-                    occs = [occ[:-1] + (i,) for i in range(cutoff)]
-                    refs = [ref_plain(x) for x in occs]
-                    scs = [K.matchings_abs_float(absA, None, x) for x in occs]
-                    got = [complex(x) for x in np.asarray(H.hafnian_with_reduction_batch(A, o, cutoff)).reshape(-1)]
-                    check("hafnian_batch", got, refs, scs, occ, None, None, cutoff)
-                    for dname, dv, fr, D, absD in loopers[:2]:
-                        refs = [_cfloat(fr.value(x)) for x in occs]
-                        scs = [K.matchings_abs_float(absA, absD, x) for x in occs]
-                        got = [complex(x) for x in np.asarray(H.loop_hafnian_with_reduction_batch(A, D, o, cutoff)).reshape(-1)]
-                        check("loop_hafnian_batch", got, refs, scs, occ, dname, dv, cutoff)
+            # (the batched variants have their own sub-exploration, _work_hafb)
             if not sampled and T >= 4:
                 sampled = True
                 ctx.sample({"kernel": "hafnian", "matrix": name, "entries": _mjson(mat), "occ": list(occ), "exact": [r.real, r.imag]})
     ctx.count("kernel_calls_compared", n_calls)
+
+
+def _last_class(occ):
+    return "last_occupation_nonzero" if occ[-1] != 0 else "last_occupation_zero"
+
+
+def _work_hafb(ctx, item):
+    """Batched variants.  hafnian_with_reduction_batch(A, occ, cutoff)[k] (and the loop variant)
+    is the (loop) hafnian reduced by occ + k*e_last, k = 0..cutoff-1 (tests/_math/test_hafnian.py
+    states exactly this; the Gaussian particle-number sampler only ever passes occ[-1] == 0).
+    Every base vector ``occ`` with total <= Tmax -- last entry zero or NOT -- x every cutoff of
+    the tier; every returned entry is compared (a) with the exact matchings reference of the
+    un-batched reduction and (b) with what the library's own un-batched function returns for
+    that reduction (which is itself compared with the reference, once per distinct reduction)."""
+    import numpy as np
+    from mc import c04_inputs as IN
+    from mc.refmodel import kernels as K
+    from piquasso._math import hafnian as H
+
+    _, m, name, Tmax, chunk, nchunks = item
+    t = _tier(ctx)
+    mat = dict(IN.haf_matrices(ctx.seed, m, ctx.tier))[name]
+    num, den = mat
+    fam = name.rstrip("0123456789")
+    A = np.array(K.matrix_to_complex(mat), dtype=np.complex128).reshape(m, m)
+    absA = K.matrix_abs_float(mat)
+    plain = K.Matchings(num)
+    rep = _Reporter(ctx)
+
+    def ref_plain(o):
+        n = sum(o)
+        if n % 2:
+            return 0j
+        return _g_to_c(plain.value(o), den ** (n // 2))
+
+    # one "target" = (variant, reduction): exact value, scale, the library's un-batched value
+    variants = [(None, None, None, None)]  # plain hafnian
+    for dname, dv in IN.haf_diagonals(ctx.seed, m, ctx.tier):
+        fr = K._FracMatchings(
+            [[(Fraction(e[0], den), Fraction(e[1], den)) for e in row] for row in num],
+            [(Fraction(e[0], dv[1]), Fraction(e[1], dv[1])) for e in dv[0]],
+        )
+        D = np.array([complex(Fraction(e[0], dv[1]), Fraction(e[1], dv[1])) for e in dv[0]], dtype=np.complex128)
+        variants.append((dname, dv, fr, D))
+    targets = [dict() for _ in variants]
+    n_calls = n_entries = n_unb = n_nonzero = 0
+    worst = 0.0
+
+    def target(vi, o):
+        nonlocal n_calls, n_unb
+        hit = targets[vi].get(o)
+        if hit is not None:
+            return hit
+        dname, dv, fr, D = variants[vi]
+        oa = np.array(o, dtype=np.int64)
+        if fr is None:
+            r = ref_plain(o)
+            s = K.matchings_abs_float(absA, None, o)
+            u = complex(H.hafnian_with_reduction(A, oa))
+            kernel = "hafnian"
+        else:
+            r = _cfloat(fr.value(o))
+            s = K.matchings_abs_float(absA, [abs(x) for x in D], o)
+            u = complex(H.loop_hafnian_with_reduction(A, D, oa))
+            kernel = "loop_hafnian"
+        n_calls += 1
+        n_unb += 1
+        if _haf_compare([r], [s], [u]) is not None:
+            rep.report({"kind": "haf", "kernel": kernel, "entry": "numba", "layout": "C", "matrix_name": name, "family": fam, "matrix": _mjson(mat),
+                        "diag_name": dname, "diag": None if dv is None else _vjson(dv), "occ": list(o), "cutoff": None}, presig=(kernel, fam))
+        hit = targets[vi][o] = (r, s, u)
+        return hit
+
+    sampled = False
+    idx = -1
+    for T in range(0, Tmax + 1):
+        for occ in IN.compositions(T, m):
+            idx += 1
+            if idx % nchunks != chunk:
+                continue
+            for cutoff in t["hafb_cutoffs"]:
+                occs = [occ[:-1] + (occ[-1] + i,) for i in range(cutoff)]
+                ctx.note_distinct("hafb|%d|%s|%s|%d" % (m, name, occ, cutoff))
+                for vi, (dname, dv, fr, D) in enumerate(variants):
+                    o = np.array(occ, dtype=np.int64)  # fresh: a kernel that writes into its argument must not poison the next call
+                    if fr is None:
+                        kernel = "hafnian_batch"
+                        out = H.hafnian_with_reduction_batch(A, o, cutoff)
+                    else:
+                        kernel = "loop_hafnian_batch"
+                        out = H.loop_hafnian_with_reduction_batch(A, D, o, cutoff)
+                    got = [complex(x) for x in np.asarray(out).reshape(-1)]
+                    n_calls += 1
+                    n_nonzero += occ[-1] != 0
+                    bad = len(got) != cutoff
+                    if not bad:
+                        for g, x in zip(got, occs):
+                            r, s, u = target(vi, x)
+                            tol = 1e-9 + 1e-9 * s
+                            e = _err(g, r)
+                            n_entries += 1
+                            if e <= tol:
+                                worst = max(worst, e / tol)
+                            if not (e <= tol and _err(g, u) <= 2 * tol):
+                                bad = True
+                                break
+                    if bad:
+                        rep.report({"kind": "haf", "kernel": kernel, "entry": "numba", "layout": "C", "matrix_name": name, "family": fam, "matrix": _mjson(mat),
+                                    "diag_name": dname, "diag": None if dv is None else _vjson(dv), "occ": list(occ), "cutoff": cutoff},
+                                   presig=(kernel, fam, _last_class(occ), cutoff <= 2))
+            if not sampled and T >= 3 and occ[-1] != 0:
+                sampled = True
+                r8 = [ref_plain(x) for x in [occ[:-1] + (occ[-1] + i,) for i in range(4)]]
+                ctx.sample({"kernel": "hafnian_batch", "matrix": name, "entries": _mjson(mat), "occ": list(occ), "cutoff": 4,
+                            "exact": [[r.real, r.imag] for r in r8], "meaning": "entry k = hafnian reduced by occ + k*e_last"})
+    ctx.count("kernel_calls_compared", n_calls)
+    ctx.count("batch_calls_compared", n_calls - n_unb)
+    ctx.count("batch_calls_with_last_occupation_nonzero", n_nonzero)
+    ctx.count("batch_entries_compared_with_exact_reference_and_library_unbatched", n_entries)
+    ctx.count("unbatched_calls_at_batch_target_reductions", n_unb)
+    # largest |batch entry - exact| of an accepted entry in thousandths of its tolerance 1e-9 + 1e-9*scale
+    ctx.counters["max_batch_entry_error_millitol"] = max(ctx.counters.get("max_batch_entry_error_millitol", 0), int(worst * 1000))
 
 
 def _work_jaxhaf(ctx, item):
@@ -1442,16 +1593,19 @@ def _work_variants(ctx, item):
                 for T in range(0, 5 if q else 7):
                     for occ in IN.compositions(T, m):
                         for kernel in ("hafnian", "loop_hafnian", "loop_hafnian_batch", "hafnian_batch"):
-                            if kernel.endswith("batch") and (occ[-1] != 0 or T > 4):
+                            # batched: every base vector, photons in the batched (last) mode included
+                            if kernel.endswith("batch") and T > 4:
                                 continue
-                            for entry, layout in combos:
+                            for entry, layout, cutoff in [c + (4 if kernel.endswith("batch") else None,) for c in combos] + (
+                                    # the connector entry point of the batched loop hafnian: the other cutoffs as well
+                                    [("NumpyConnector", "C", c) for c in (1, 2, 3, 5, 8)] if kernel == "loop_hafnian_batch" else []):
                                 if entry == "NumpyConnector" and kernel == "hafnian_batch":
                                     continue
                                 case = {"kind": "haf", "kernel": kernel, "entry": entry, "layout": layout, "matrix_name": name, "family": name.rstrip("0123456789"),
                                         "matrix": _mjson(mat), "diag_name": dname, "diag": _vjson(dv) if kernel.startswith("loop") else None,
-                                        "occ": list(occ), "cutoff": 4 if kernel.endswith("batch") else None}
+                                        "occ": list(occ), "cutoff": cutoff}
                                 n_calls += 1
-                                ctx.note_distinct("var|%s|%s|%s|%s|%s" % (kernel, entry, layout, name, occ))
+                                ctx.note_distinct("var|%s|%s|%s|%s|%s|%s" % (kernel, entry, layout, name, occ, cutoff))
                                 try:
                                     bad = evaluate_case(case) is not None
                                 except (TypeError, NotImplementedError):
